@@ -38,14 +38,16 @@ CLAIMED = {
         "technique": "Coq proof by induction over operand lists + exhaustive differential sweep (model vs crate vs Python table)",
     },
     "C09": {
-        "text": "The comparison table and the casts are modelled line by line; cmp_int_complete proves that on the whole "
+        "text": "The comparison table is REGENERATED from src/solver.rs on every run (tools/gen_tables.py -> Model/GeneratedCmp.v, 35 arms "
+                "in source order) and cmp_table_is_compare_values proves that, read with first-match semantics, it is the model's "
+                "compare_values; the casts are modelled line by line; cmp_int_complete proves that on the whole "
                 "i64 x u64 range every operator computes exactly the mathematical relation (fix D6), int_trichotomy / "
                 "ge_le_unions / float_trichotomy the order laws, float_order_is_real_order ties float comparison to the reals "
                 "through Flocq, cast_int_in_range / f64_round_Z_nearest / cast_unconvertible_false the casts (fix D7), "
                 "parse_i64_show / show_Z_injective the decimal text; the boundary grid of the property is enumerated "
                 "completely against the crate and an exact-arithmetic Python reference.",
         "note": TB + "f64 decimal parsing/printing are oracles (Rust std). Float values are carried as bit patterns and interpreted by Flocq's binary64.",
-        "technique": "Coq proof (case analysis + lia over 64-bit ranges; Flocq Bcompare_correct) + exhaustive boundary grid, differential",
+        "technique": "Coq proof (case analysis + lia over 64-bit ranges; Flocq Bcompare_correct) against a comparison table translated from the source on every run + exhaustive boundary grid, differential",
     },
     "C10": {
         "text": "Object::find modelled function-by-function; find_exact proves, for every root object and every well-formed "
